@@ -4,8 +4,8 @@ package main
 // C06 (totality), C02 (chunk independence), parts of C01 and C11.
 
 import (
-	"go/constant"
 	"fmt"
+	"go/constant"
 	"go/token"
 	"go/types"
 	"math"
@@ -455,6 +455,7 @@ func runC06(c *Ctx) {
 	ruleNoAbsentElements(c, "R06.b", scope)
 	rulePanicSites(c, scope)
 	ruleParserTermination(c, scope)
+	ruleReentrantScratch(c, "R06.g", scope)
 	c.assume("strconv.Atoi returns an error (not a wrapped value) on overflow; bytes.Buffer and io.Reader behave as documented (0 <= n <= len(p))")
 }
 
